@@ -32,5 +32,9 @@ void h_c02_tables(void)
     __CPROVER_assert(WA_PRESENT[a], "c02.tables.assignment-operator-token-maps-to-the-prescribed-kind");
     __CPROVER_assert(G_LEVEL[WA_TOK[a]] == G_LEVEL[TOK_ASSIGN_LEVEL_TOKEN], "c02.tables.all-assignment-operators-share-one-level");
     __CPROVER_assert(G_IMPLY_IS_NOT_OR, "c02.tables.imply-is-built-as-(not-a)-or-b");
+    /* b ? x : y = 1  is  b ? x : (y = 1): when '=' follows the else-branch bison compares the inline-if PRODUCTION's level
+       with the assignment token's level and must shift, i.e. the production sits on the (right-associative) assignment level */
+    __CPROVER_assert(G_INLINE_IF_RULE_LEVEL == G_LEVEL[TOK_ASSIGN_LEVEL_TOKEN] && G_ASSIGN_RULE_LEVEL == G_LEVEL[TOK_ASSIGN_LEVEL_TOKEN],
+                     "c02.tables.the-else-branch-of-an-inline-if-extends-over-a-following-assignment-(production-level-=-assignment-level)");
     REACH;
 }
